@@ -487,10 +487,10 @@ func CollectionProgs() []Prog {
 			return func(t *rapid.T, r *Rec) {
 				v := g.Draw(t, "p")
 				r.Draws = append(r.Draws, Render(v))
-				if !reflect.DeepEqual(in, orig) {
+				if len(in) != len(orig) || (len(in) > 0 && !reflect.DeepEqual(in, orig)) {
 					r.bad("Permutation modified its input: %v", in)
 				}
-				if !reflect.DeepEqual(sortedCopy(v), sortedCopy(orig)) || len(v) != len(orig) {
+				if len(v) != len(orig) || (len(v) > 0 && !reflect.DeepEqual(sortedCopy(v), sortedCopy(orig))) {
 					r.bad("Permutation result %v is not a permutation of %v", v, orig)
 				}
 			}
@@ -655,21 +655,33 @@ func CombinatorProgs() []Prog {
 			return ""
 		}),
 		{Name: "Deferred(tree)", Tags: "comb", New: func() func(t *rapid.T, r *Rec) {
-			var g *rapid.Generator[*tree]
-			g = rapid.OneOf(
-				rapid.Just[*tree](nil),
-				rapid.Custom(func(t *rapid.T) *tree {
-					return &tree{
-						Val:   rapid.Int8().Draw(t, "val"),
-						Left:  rapid.Deferred(func() *rapid.Generator[*tree] { return g }).Draw(t, "left"),
-						Right: rapid.Deferred(func() *rapid.Generator[*tree] { return g }).Draw(t, "right"),
-					}
-				}),
-			)
-			d := rapid.Deferred(func() *rapid.Generator[*tree] { return g })
+			// recursive generator through Deferred; recursion depth is bounded so that the
+			// program itself terminates for every bitstream (an unbounded critical branching
+			// process does not, and that is the user's generator, not rapid)
+			var mk func(depth int) *rapid.Generator[*tree]
+			mk = func(depth int) *rapid.Generator[*tree] {
+				if depth == 0 {
+					return rapid.Just[*tree](nil)
+				}
+				sub := rapid.Deferred(func() *rapid.Generator[*tree] { return mk(depth - 1) })
+				return rapid.OneOf(
+					rapid.Just[*tree](nil),
+					rapid.Custom(func(t *rapid.T) *tree {
+						return &tree{
+							Val:   rapid.Int8().Draw(t, "val"),
+							Left:  sub.Draw(t, "left"),
+							Right: sub.Draw(t, "right"),
+						}
+					}),
+				)
+			}
+			d := rapid.Deferred(func() *rapid.Generator[*tree] { return mk(4) })
 			return func(t *rapid.T, r *Rec) {
 				v := d.Draw(t, "tree")
 				r.Draws = append(r.Draws, renderTree(v))
+				if v.depth() > 4 {
+					r.bad("tree deeper than the generator allows")
+				}
 			}
 		}},
 		one("Make[made]", "comb wide", rapid.Make[made], func(v made) string {
